@@ -36,7 +36,11 @@ fn gen_regex(rng: &mut Rng, depth: usize) -> String {
     let n = rng.range(1, 3);
     for _ in 0..n {
         let piece = if depth < 2 && rng.chance(1, 3) {
-            let inner = gen_regex(rng, depth + 1);
+            let mut inner = gen_regex(rng, depth + 1);
+            // an end anchor inside a group / a non-final alternative needs the text after the match
+            if rng.chance(1, 5) {
+                inner.push('$');
+            }
             if rng.chance(1, 3) {
                 format!("({})?", inner)
             } else if rng.chance(1, 4) {
@@ -45,7 +49,11 @@ fn gen_regex(rng: &mut Rng, depth: usize) -> String {
                 format!("({})", inner)
             }
         } else if depth < 2 && rng.chance(1, 6) {
-            format!("({}|{})", atom(rng), atom(rng))
+            if rng.chance(1, 3) {
+                format!("({}$)|({})", atom(rng), atom(rng))
+            } else {
+                format!("({}|{})", atom(rng), atom(rng))
+            }
         } else {
             atom(rng)
         };
